@@ -16,6 +16,12 @@ theorem registry_wf : registry.all (fun d => wfDef (d.params.map RParam.toParam)
 theorem alias_convention : registry.all (fun d => d.params.all aliasOk) = true := by
   decide +kernel
 
+/-- for every parameter of every registered definition the side conditions of
+    `C12.spelling_kw_move` / `C12.spelling_default_move` hold (own slot below the visible count, no
+    other parameter with the same slot or the same keyword name) -/
+theorem registry_moves_ok : registry.all (fun d => movesOk (d.params.map RParam.toParam)) = true := by
+  decide +kernel
+
 /-- the table is not empty and has definitions of every kind -/
 theorem registry_kinds :
     registry.length > 200 ∧
